@@ -18,7 +18,11 @@
      acyclic_dem st inj    - a rank decreases along every static dependency `ndeps` AND along the demand
                              `sdem st inj` each switch_c makes in this transaction (the cell its outer cell is
                              updated to, as the specification computes it).  The POTENTIAL demand targets of a
-                             switch_c (`ndem`: every cell of the program) are not constrained. *)
+                             switch_c (`ndem`: every cell of the program) are not constrained.
+                             The static dependency of a switch_s is the stream its outer cell held at the
+                             start of the transaction, NOT the outer cell (the repaired
+                             /repo/src/impl_/cell.rs `switch_s`): the outer cell's update may depend on the
+                             switch's own output (Props/K1.v). *)
 From Coq Require Import List ZArith Arith Permutation.
 Import ListNotations.
 From Sodium Require Import Sodium Engine EngineTop Net NetRefine.
